@@ -245,6 +245,16 @@ func (fr *Frame) invoke(ctx *callCtx) Val {
 		return fr.pureHavoc(ctx)
 	}
 	if target := e.bindInvoke(ctx.common); target != nil {
+		// the interface value holds the keeper: unbox it to the implementation's receiver type
+		if recv := target.Signature.Recv(); recv != nil && len(ctx.args) > 0 {
+			rt := recv.Type()
+			_, key := e.typeTag(rt)
+			m := mangle(key)
+			srt := e.vc.sortOf(rt)
+			e.vc.declFun("box_"+m, []string{srt}, "Iface")
+			e.vc.declFun("unbox_"+m, []string{"Iface"}, srt)
+			ctx.args[0] = Val{S: e.vc.define("recv", srt, app("unbox_"+m, ctx.args[0].S)), T: rt}
+		}
 		return fr.staticCall(ctx, target)
 	}
 	if pureInvoke(ctx.common) {
